@@ -290,10 +290,14 @@ func c11Example(c *Ctx, r *Report) {
 			return
 		}
 		// inside the loop: instance := lint.Lint(); if Configurable → configurables[name] = strip(instance.Configure())
-		kinds[p] = true
+		// (the map may sit in a struct embedded in the lookup: r.<kind>.<embedded>.lintsByName)
+		parts := strings.Split(p, ".")
+		if len(parts) >= 3 {
+			kinds[parts[0]+"."+parts[1]+".lintsByName"] = true
+		}
 	})
 	for _, k := range lookupKinds {
-		want := "r." + k.regField + ".lintsByName"
+		want := fn.Params[0].Name() + "." + k.regField + ".lintsByName"
 		r.Check(kinds[want], "example-coverage", k.regField, fn.Pos(), "ranged over", "the generated example configuration no longer covers "+k.regField+": configurable lints of that kind get no section")
 	}
 	// each loop stores stripGlobalsFromExample(Configure()) under the lint's name
@@ -304,7 +308,7 @@ func c11Example(c *Ctx, r *Report) {
 			return
 		}
 		v := apath(mu.Value)
-		if strings.HasPrefix(v, "lint.stripGlobalsFromExample(") && strings.Contains(v, ".Lint().(lint.Configurable)") && strings.Contains(v, ".Configure(") && strings.HasPrefix(apath(mu.Key), "next(range(r.") {
+		if strings.HasPrefix(v, "lint.stripGlobalsFromExample(") && strings.Contains(v, ".Lint().(lint.Configurable)") && strings.Contains(v, ".Configure(") && strings.HasPrefix(apath(mu.Key), "next(range("+fn.Params[0].Name()+".") {
 			nput++
 		}
 	})
